@@ -94,7 +94,10 @@ def rec_rle(out: hlib.RecWriter, runs: list, src: str) -> None:
     out.write({'k': 'rle', 'in': runs, 'out': runs_of(enc), 'sig': {'kind': 'rle', 'action': 'encode', 'src': src}})
     n = len(data)
     # decode what was encoded, followed by the bytes of a next row, at full and at reduced cluster counts
-    for tail in ([], [[7, 1]], [[0, 1], [9, 1]]):
+    tails = ([], [[7, 1]], [[0, 1], [9, 1]])
+    if src == 'family' and not THOROUGH:        # quick tier: one of the three continuations per pattern, rotating
+        tails = (tails[(len(data) + len(runs) + hlib.seed()) % 3],)
+    for tail in tails:
         blob = enc + bytes_of(tail)
         for maxc in {8 * n, max(0, 8 * n - 9), -1 if not tail else 8 * n}:
             if n == 0 and maxc != -1:
@@ -1080,6 +1083,192 @@ def ents_records(out: hlib.RecWriter, rng: random.Random) -> None:
                    'sig': {'kind': 'rt', 'action': 'ents', 'layout': layout, 'src': 'random', 'sep': str(sep_mode)}})
 
 
+# ====================================================================== optional parts, independently
+def realise_part(c: dict, bsp: BSP):
+    """Builds the value of combination c (generic, non-default numbers) on the empty BSP, assigns it and
+    returns (views to compare, describe(new bsp) -> the same description of what was re-read)."""
+    from zipfile import ZipFile
+    from srctools.keyvalues import Keyvalues
+    from srctools.vmf import Output
+    lump = c['lump']
+    tex = lambda name='tools/part': bsp.create_texinfo(name, reflectivity=Vec(0.25, 0.5, 0.75), width=64, height=32)
+    if lump == 'bmodels':
+        kv = {'none': None, 'empty': Keyvalues.root(),
+              'full': Keyvalues.root(Keyvalues('solid', [Keyvalues('index', '0'), Keyvalues('mass', '12.5')]))}[c['kv']]
+        solids = [b'VPHY' + bytes([k + 1] * (5 + 3 * k)) for k in range(c['solids'])]
+        mdl = B.BModel(Vec(-8.5, -16, -1), Vec(8, 16.25, 64), Vec(1.5, -2, 3), bsp.nodes[0], [], kv, solids)
+        vmf = bsp.ents
+        bm = bsp.bmodels
+        if c['where'] == 'world':
+            bm[vmf.spawn] = mdl
+            key = -1
+        else:
+            ent = Entity(vmf, {'classname': 'func_brush', 'targetname': 'part'})
+            vmf.add_ent(ent)
+            bm[ent] = mdl
+            key = 0
+        bsp.bmodels = bm
+
+        def describe(new: BSP) -> dict:
+            ents = [new.ents.spawn] + list(new.ents.entities)
+            m = new.bmodels[ents[key + 1]]
+            k = 'none' if m.phys_keyvalues is None else ('full' if len(list(m.phys_keyvalues)) else 'empty')
+            return dict(c, kv=k, solids=len(m._phys_solids))
+        return ['bmodels'], describe
+    if lump == 'overlays':
+        ov = B.Overlay(77, Vec(1.5, 2, 3), Vec(0, 0.5, 1), tex(), c['faces'], list(range(5, 5 + c['faces'])), c['order'],
+                       0.125, 0.875, 0.25, 0.75, Vec(-3, -4, 0), Vec(-3, 4.5, 0), Vec(3, 4, 1), Vec(3.5, -4, 0))
+        if c['fades'] == 'set':
+            ov.fade_min_sq, ov.fade_max_sq = 100.5, 40000.0
+        if c['levels'] == 'set':
+            ov.min_cpu, ov.max_cpu, ov.min_gpu, ov.max_gpu = 1, 3, 2, 254
+        bsp.overlays = [ov]
+
+        def describe(new: BSP) -> dict:
+            o = new.overlays[0]
+            return dict(c, faces=len(o.faces), order=o.render_order,
+                        fades='default' if (o.fade_min_sq, o.fade_max_sq) == (-1.0, 0.0) else 'set',
+                        levels='zero' if (o.min_cpu, o.max_cpu, o.min_gpu, o.max_gpu) == (0, 0, 0, 0) else 'set')
+        return ['overlays'], describe
+    if lump == 'cubemaps':
+        bsp.cubemaps = [B.Cubemap(Vec(128 * k - 7, 33, -5), c['size']) for k in range(c['count'])]
+        return ['cubemaps'], lambda new: dict(c, count=len(new.cubemaps), size=new.cubemaps[0].size if new.cubemaps else c['size'])
+    if lump == 'props':
+        leafs = [bsp.visleafs[0], B.VisLeaf(B.BrushContents.EMPTY, 5, 1, B.VisLeafFlags.NONE, Vec(-1, -2, -3), Vec(4, 5, 6), [], [], -1)]
+        bsp.visleafs = leafs
+        bsp.static_prop_version = B.StaticPropVersion[c['fmt']]
+        bsp.game_lumps[b'sprp'].version = S.SPRP[c['fmt']][0]
+        bsp.props = [B.StaticProp(f'models/part{k}.mdl', Vec(10.5 + k, -3, 7), Angle(15, 270, 0.5), visleafs=set(leafs[:c['leafs']]),
+                                  solidity=2, skin=3 + k, min_fade=10.5, max_fade=200.0, lighting=Vec(1, 2, 3.5), fade_scale=0.5)
+                     for k in range(c['count'])]
+
+        def describe(new: BSP) -> dict:
+            pr = new.props
+            return dict(c, count=len(pr), leafs=len(pr[0].visleafs) if pr else c['leafs'],
+                        fmt=new.static_prop_version.name if pr else c['fmt'])
+        return ['props'], describe
+    if lump == 'detail_props':
+        def mk(kind: str, k: int):
+            base = dict(origin=Vec(1.5 * k, 2, -3), angles=Angle(0, 45.5, 0), orientation=B.DetailPropOrientation.SCREEN_ALIGNED,
+                        leaf=k, lighting=(10, 20, 30 + k, 255), light_styles=(65537, 2), sway_amount=9)
+            if kind == 'model':
+                return B.DetailPropModel(model=f'models/detail{k}.mdl', **base)
+            spr = dict(sprite_scale=1.5, dims_upper_left=(0.5, 1.0), dims_lower_right=(2.0, 0.25),
+                       texcoord_upper_left=(0.125, 0.25), texcoord_lower_right=(0.75, 0.875))
+            if kind == 'sprite':
+                return B.DetailPropSprite(**base, **spr)
+            return B.DetailPropShape(**base, **spr, is_cross=kind == 'cross', shape_angle=30, shape_size=12)
+        bsp.detail_props = [mk(kind, k) for k, kind in enumerate(c['kinds'])]
+
+        def kind_of(p) -> str:
+            if isinstance(p, B.DetailPropShape):
+                return 'cross' if p.is_cross else 'shape'
+            return 'sprite' if isinstance(p, B.DetailPropSprite) else 'model'
+        return ['detail_props'], lambda new: dict(c, kinds=[kind_of(p) for p in new.detail_props])
+    if lump == 'ents':
+        vmf = VMF()
+        vmf.spawn['classname'] = 'worldspawn'
+        for k in range(c['spawnkeys'] - 1):
+            vmf.spawn[f'world_key{k}'] = f'{k} 2.5 x'
+        ent = Entity(vmf)
+        for k in range(c['keys']):
+            ent[f'key{k}'] = ['value one', '-1 0.5 7'][k % 2]
+        comma = c['sep'] == 'comma'
+        for k in range(c['outs']):
+            ent.add_out(Output('OnUser%d' % (k + 1), 'tgt', 'FireUser2', 'p q', 1.25, times=3, comma_sep=comma))
+        vmf.add_ent(ent)
+        bsp.ents = vmf
+        bsp.out_comma_sep = comma
+
+        def describe(new: BSP) -> dict:
+            e = list(new.ents.entities)[0]
+            outs = list(e.outputs)
+            return dict(c, keys=len(list(e.items())), outs=len(outs), spawnkeys=len(list(new.ents.spawn.items())),
+                        sep=('comma' if outs[0].comma_sep else 'esc') if outs else c['sep'])
+        return ['ents'], describe
+    if lump == 'visibility':
+        n = c['clusters']
+        rl = (n + 7) // 8
+        bsp.visibility = None if n < 0 else B.Visibility([bytearray([k + 1] + [0] * (rl - 1)) for k in range(n)],
+                                                        [bytearray([0] * (rl - 1) + [255 - k]) for k in range(n)])
+        return ['visibility'], lambda new: dict(c, clusters=-1 if new.visibility is None else len(new.visibility.potentially_visible))
+    if lump == 'texinfo':
+        datas: dict = {}
+        infos = []
+        for k, lab in enumerate(c['pattern']):
+            if lab not in datas:
+                mat = 'part/same' if c['mats'] == 'same' else f'part/mat{lab}'
+                datas[lab] = B.TexData(mat, Vec(0.125 * lab, 0.5, 0.25), 64 * lab, 32)
+            infos.append(B.TexInfo(Vec(1, 0, 0), float(k) + 0.5, Vec(0, 1, 0), 2.0, Vec(0, 0, 1), 3.0, Vec(1, 1, 0), 4.0,
+                                   SurfFlags.NOLIGHT, datas[lab]))
+        bsp.texinfo = infos
+
+        def describe(new: BSP) -> dict:
+            seen: list = []
+            pat = []
+            for t in new.texinfo:
+                for i, d in enumerate(seen):
+                    if d is t._info:
+                        pat.append(i + 1)
+                        break
+                else:
+                    seen.append(t._info)
+                    pat.append(len(seen))
+            return dict(c, pattern=pat)
+        return ['texinfo'], describe
+    if lump == 'brushes':
+        ti = tex()
+        bsp.brushes = [B.Brush(B.BrushContents.WATER | B.BrushContents.SOLID,
+                               [B.BrushSide(bsp.planes[0], ti, 10 * k + j, bool(j & 1), 2) for j in range(n)])
+                       for k, n in enumerate(c['sides'])]
+        return ['brushes'], lambda new: dict(c, sides=[len(b.sides) for b in new.brushes])
+    if lump == 'primitives':
+        bsp.primitives = [B.Primitive(bool(k & 1), list(range(3, 3 + ni)), [Vec(k + 0.5, j, -1) for j in range(nv)])
+                          for k, (nv, ni) in enumerate(zip(c['verts'], c['inds']))]
+        return ['primitives'], lambda new: dict(c, verts=[len(q.verts) for q in new.primitives],
+                                                inds=[len(q.indexed_verts) for q in new.primitives])
+    if lump == 'pakfile':
+        zf = ZipFile(io.BytesIO(), 'w')
+        for k in range(c['files']):
+            zf.writestr(f'materials/part/file{k}.vmt', b'"Generic"\n{\n}\n' * (k + 1))
+        bsp.pakfile = zf
+        return [], lambda new: dict(c, files=len(new.pakfile.namelist()))
+    if lump == 'textures':
+        bsp.textures = list(c['names'])
+        return ['textures'], lambda new: dict(c, names=list(new.textures))
+    raise KeyError(lump)
+
+
+def parts_records(out: hlib.RecWriter, parts_file: str) -> dict:
+    with open(parts_file) as f:
+        combos = json.load(f)
+    n = 0
+    for c in combos:
+        layouts = ['v20'] + (['chaos', 'v19'] if THOROUGH and c['lump'] not in ('props',) else [])
+        for layout in layouts:
+            err = ''
+            diff: list = []
+            obs: dict = {}
+            try:
+                bsp = base_bsp(layout, 'part')
+                views, describe = realise_part(c, bsp)
+                proj = L.Projector(bsp)
+                exp = {v: proj.view(v) for v in views}
+                path = os.path.join(TMP, 'part.bsp')
+                quiet_save(bsp, path)
+                new = BSP(path)
+                obs = describe(new)
+                got = L.Projector(new)
+                for v in views:
+                    diff += [[v, lab] for lab in sorted(L.diff_labels(exp[v], got.view(v), v, set()))]
+            except Exception as exc:    # noqa: BLE001
+                err = type(exc).__name__
+            out.write({'k': 'part', 'c': c, 'obs': obs, 'diff': diff, 'error': err,
+                       'sig': {'kind': 'part', 'action': 'roundtrip', 'lump': c['lump'], 'layout': layout, 'src': 'tlc'}})
+            n += 1
+    return {'parts': len(combos)}
+
+
 def main() -> None:
     mode = sys.argv[1]
     rng = random.Random(f'{hlib.seed()}/{mode}')
@@ -1094,7 +1283,7 @@ def main() -> None:
             # (e.g. it cannot read the synthesised base file): reported as a record, judged by TLC
             import traceback
             sys.stderr.write(traceback.format_exc())
-            path = {'funcs': 3, 'graph': 4}.get(mode, 2)
+            path = {'funcs': 3, 'graph': 4, 'parts': 3}.get(mode, 2)
             if mode == 'replay':
                 path = 3
             out = hlib.RecWriter(sys.argv[path] + '.crash')
@@ -1106,6 +1295,7 @@ def main() -> None:
         stats.setdefault('rle_family', 0)
         stats.setdefault('finder_edges', 0)
         stats.setdefault('worlds', 0)
+        stats.setdefault('parts', 0)
         print(json.dumps(stats))
     finally:
         import shutil
@@ -1133,6 +1323,9 @@ def run_mode(mode: str, rng: random.Random, stats: dict) -> hlib.RecWriter:
         elif mode == 'fits':
             out = hlib.RecWriter(sys.argv[2])
             fits_records(out, rng)
+        elif mode == 'parts':
+            out = hlib.RecWriter(sys.argv[3])
+            stats.update(parts_records(out, sys.argv[2]))
         elif mode == 'transplant':
             out = hlib.RecWriter(sys.argv[2])
             transplant_records(out, rng)
